@@ -88,6 +88,8 @@ impl OperationControl for Choice {
         matcher: &'a ReMatcher<'a>,
         position: usize,
     ) -> Box<dyn Iterator<Item = usize> + 'a> {
+        #[cfg(regexml_verif)]
+        crate::verif::tick();
         Box::new(ChoiceIterator::new(matcher, position, &self.branches))
     }
 
@@ -131,7 +133,11 @@ impl Iterator for ChoiceIterator<'_> {
     type Item = usize;
 
     fn next(&mut self) -> Option<Self::Item> {
+        #[cfg(regexml_verif)]
+        crate::verif::tick();
         loop {
+            #[cfg(regexml_verif)]
+            crate::verif::tick();
             // take values from current iter as long as we can
             if let Some(current_iter) = &mut self.current_iter {
                 let next = current_iter.next();
